@@ -846,9 +846,11 @@ class Barrier(ICircuitOperation):
         :param relation_transfer_lookup: Lookup table used to transfer relation link.
         :return: Copy of self with updated relation link.
         """
-        return Barrier(
+        result = Barrier(
             qubit_indices=self.qubit_indices,
         )
+        result.relation = self.relation.copy(relation_transfer_lookup=relation_transfer_lookup)
+        return result
 
     def apply_modifiers_to_self(self) -> ICircuitOperation:
         """
@@ -943,6 +945,8 @@ class VirtualTwoQubitVacant(TwoQubitOperation, ICircuitOperation):
             control_qubit_index=self.control_qubit_index,
             target_qubit_index=self.target_qubit_index,
             relation=self.relation.copy(relation_transfer_lookup=relation_transfer_lookup),
+            qubit_channel=self.qubit_channel,
+            duration_strategy=self.duration_strategy,
         )
     # endregion
 
